@@ -1,6 +1,6 @@
 ------------------------------ MODULE TcpConnGen ------------------------------
 (* Behaviour generation (spec -> code).  A behaviour ends with one Finish step that prints the action history as
-   JSON; harness/cmd/tcpconn performs the environment actions (Connect, CSend, CFin, TSend, TFin, TRst, Tick,
+   JSON; harness/cmd/tcpconn performs the environment actions (Connect, CSend, CFin, CRst, TSend, TFin, TRst, TClose, Tick,
    CloseListener) on real sockets in this order and, before each of them, waits for the observable actions that
    precede it (Open, MAuth, MProbe, MClosed, Dial, TRecv, TSawFin, CRecv, CSawFin, CClose, ServeReturn). *)
 EXTENDS TcpConn, Json
